@@ -44,10 +44,36 @@
 (* error (the marker stays), AllocateNodeID goes on with the next slot.  A fault never hits   *)
 (* the model's last attempt (the real loop has 98 more).                                      *)
 (* A node whose allocation failed holds nothing: its Release (NRelNoop) touches no key.       *)
-(* Transient renewal faults (MaxRenewFails > 0): a heartbeat Set may fail (RenewFail) when    *)
-(* the previous renewal of that node succeeded - never twice in a row, so the claim (TTL = 3   *)
-(* periods) is never in danger; att[n] counts the failures over the node's lifetime.  The      *)
-(* heartbeat goes on after a failure: ClaimNeverExpiresUnderLiveHolder still holds.            *)
+(* The lease (node mode, MaxTicks > 0): a claim key lives ttl[s] periods after its last write *)
+(* (SetNX at Claim: TTLTicks; Set at Renew: RenewTTLTicks, the same 90 s in the code).  The     *)
+(* holder's heartbeat goroutine hb[n] is started by the successful Claim ("run"), fires once a   *)
+(* period and ends ONLY by Release (close(stopCh): "off", stopc[n] = "closed") or Crash          *)
+(* (context cancelled: "off").  Each firing is one Set on the claim key:                         *)
+(*    Renew(n)      the Set succeeds: key (re)written unconditionally, age 0, cf[n] = 0          *)
+(*    RenewFail(n)  the Set fails with a transient store error: nothing written; the loop logs   *)
+(*                  the error and GOES ON.  Environment bounds: att[n] < MaxRenewFails failures  *)
+(*                  per node over its life, cf[n] < MaxConsecFails in a row.  With               *)
+(*                  MaxConsecFails <= TTLTicks - 2 the faults themselves never let a claim run   *)
+(*                  out (a renewal attempt is made while the key has a full period left):        *)
+(*                  "transient".  MaxConsecFails = TTLTicks - 1 puts the deciding attempt on the *)
+(*                  expiry instant (IdGen_show_outage.cfg: the limit of any lease).              *)
+(* Faults of SetNX (Claim) and Delete (Release: NDelfault - Release returns the error, the key   *)
+(* stays until its TTL, the heartbeat has already stopped) can happen at any time in node mode.  *)
+(* Named deviations of the heartbeat life cycle (constant-selected; as-is = "never"/TTLTicks/    *)
+(* Realloc FALSE), each with a *_show_* configuration under which TLC reports the duplicate:     *)
+(*    HbGiveUp = "lifetime" the loop returns after GiveUpAfter failed renewals counted over its  *)
+(*               whole life (rf[n], never reset by a success)        IdGen_show_hbgiveup.cfg     *)
+(*    HbGiveUp = "consec"   ... after GiveUpAfter failures in a row (harmless iff GiveUpAfter    *)
+(*               > MaxConsecFails)                                   IdGen_show_hbgiveup2.cfg    *)
+(*    RenewTTLTicks < TTLTicks  the renewal grants a shorter lease than the claim did            *)
+(*                                                                   IdGen_show_shortlease.cfg   *)
+(*    Realloc    the allocator object is used again after Release.  StopChan = "once" (what the   *)
+(*               code does): stopCh is made once, in the constructor, and stays closed - the new *)
+(*               heartbeat returns at once, and the next Release panics in close(stopCh) before  *)
+(*               it deletes anything.  StopChan = "fresh" (repair C15-2): a new channel per      *)
+(*               allocation.  No call site in tunnox-core re-uses an allocator.                  *)
+(*                                                                   IdGen_show_realloc.cfg      *)
+(* hbLost (ghost): the heartbeat of a live holder has ended.                                     *)
 (* Lapse (gen, WithLapse): a long time passes (more than any cache default TTL, far less than  *)
 (* the 30 days of the markers): markers written with "no expiry" (ttl 0) or 30 days stay.      *)
 (*                                                                                            *)
@@ -76,6 +102,12 @@ CONSTANTS Mode,         \* "gen" | "node"
           MaxTicks,     \* node: bound on elapsed periods (0 = untimed interleavings only)
           Faults,       \* kinds of store operation of which one may fail ({} = no fault); uuid: {"Entropy"}
           MaxRenewFails,\* node: bound on transient heartbeat failures per node (0 = none)
+          MaxConsecFails,\* node: bound on heartbeat failures in a row per holder (transient: <= TTLTicks - 2)
+          HbGiveUp,     \* node: "never" (the code) | "lifetime" | "consec": when the heartbeat loop gives up (deviation)
+          GiveUpAfter,  \* node: ... after this many failures
+          RenewTTLTicks,\* node: lease granted by a renewal, in periods (the code: TTLTicks)
+          Realloc,      \* node: TRUE = an allocator may allocate again after its Release (MaxCalls allocations)
+          StopChan,     \* node: "once" = one stop channel per allocator object (the code) | "fresh" = one per allocation
           WithLapse,    \* gen: TRUE = the Lapse action (long time passes once) is enabled
           Emit
 
@@ -89,9 +121,12 @@ VARIABLES layout, taken, fk, hasnx,            \* chosen in Init (fk: the kind o
           sh, age,                             \* node: claim key of slot present in the claim tier / periods since last write
           hold, renewed, ticks,                \* node: slot held by a node (0 = none) / renewed in this period / periods elapsed
           expLive, wrongTier, ndup, nforeign,  \* ghosts (node)
+          hb, cf, rf, ttl, stopc, allocs, hbLost, \* node: heartbeat goroutine / failures in a row / failures seen by the running loop /
+                                               \*       lease of the key of slot s in periods / stopCh / allocations made / ghost
           hist
 genv  == <<used, cand, att, held, calls, mu, dup, tookTaken, nonAtomic>>
-nodev == <<sh, age, hold, renewed, ticks, expLive, wrongTier, ndup, nforeign>>
+hbv   == <<hb, cf, rf, ttl, stopc, allocs, hbLost>>
+nodev == <<sh, age, hold, renewed, ticks, expLive, wrongTier, ndup, nforeign, hbv>>
 fv    == <<fk, farm, hasnx>>
 vars  == <<layout, taken, fv, pc, genv, nodev, hist>>
 view  == <<layout, taken, fv, pc, genv, nodev>>
@@ -118,6 +153,9 @@ Init == /\ layout \in (IF Mode = "gen" THEN Layouts ELSE {"nodes"})
         /\ sh = [s \in Slots |-> Mode = "node" /\ s \in taken] /\ age = [s \in Slots |-> 0]
         /\ hold = [p \in Procs |-> 0] /\ renewed = [p \in Procs |-> FALSE] /\ ticks = 0
         /\ expLive = FALSE /\ wrongTier = FALSE /\ ndup = FALSE /\ nforeign = FALSE
+        /\ hb = [p \in Procs |-> "off"] /\ cf = [p \in Procs |-> 0] /\ rf = [p \in Procs |-> 0]
+        /\ ttl = [s \in Slots |-> TTLTicks] /\ stopc = [p \in Procs |-> "open"] /\ allocs = [p \in Procs |-> 0]
+        /\ hbLost = FALSE
         /\ hist = [lay |-> layout, tk |-> taken, fk |-> fk, nx |-> hasnx, st |-> <<>>]
 
 Out(h) == IF Emit THEN PrintT("BEH " \o ToJson(h)) ELSE TRUE
@@ -131,7 +169,8 @@ Log(p, a, c, r) == /\ hist' = [hist EXCEPT !.st = Append(hist.st,
                    /\ Out(hist')
 
 \* the single store fault can hit this operation of kind k now
-CanFail(k) == fk = k /\ farm = "idle" /\ ticks = 0     \* (gen: a behaviour has a fault or a Lapse, not both)
+CanFail(k) == fk = k /\ farm = "idle" /\ (Mode = "gen" => ticks = 0)   \* (gen: a behaviour has a fault or a Lapse, not both;
+                                                                       \*  node: the fault can happen at any time)
 Spend == farm' = "spent" /\ fk' = fk /\ hasnx' = hasnx
 
 \* =========================== generator (Mode = "gen") =====================================
@@ -140,7 +179,7 @@ Lapse ==
   /\ Mode = "gen" /\ WithLapse /\ ticks = 0 /\ used # {}
   /\ farm = "idle" /\ \A p \in Procs : pc[p] = "idle"          \* between calls
   /\ ticks' = 1
-  /\ UNCHANGED <<layout, taken, fv, pc, genv, sh, age, hold, renewed, expLive, wrongTier, ndup, nforeign>>
+  /\ UNCHANGED <<layout, taken, fv, pc, genv, sh, age, hold, renewed, expLive, wrongTier, ndup, nforeign, hbv>>
   /\ Log("time", "Lapse", 0, "")
 
 Waiters(i) == {q \in Procs : pc[q] = "W" /\ InstOf(q) = i}
@@ -261,32 +300,42 @@ UGen(p) ==
           /\ x \in Cands /\ used' = used \cup {x} /\ RetOk(p, x) /\ Log(p, "UGen", x, "ok")
 
 \* =========================== node ids (Mode = "node") =====================================
-Live(n) == pc[n] = "held"                                \* allocated, heartbeat running
+Live(n) == pc[n] = "held"                                \* allocated and neither released nor crashed
+HbRuns(n) == hb[n] = "run"                               \* its heartbeat goroutine is in its loop
 RenewHitsClaim == RenewTier = "claim" \/ Wiring = "same"
+\* the deviation HbGiveUp: the loop returns after lf failures over its life / c in a row
+GivesUp(lf, c) == \/ HbGiveUp = "lifetime" /\ lf >= GiveUpAfter
+                  \/ HbGiveUp = "consec" /\ c >= GiveUpAfter
 
 CallAlloc(n) ==
-  /\ Mode = "node" /\ fk # "Entropy" /\ pc[n] = "idle"
+  /\ Mode = "node" /\ fk # "Entropy" /\ pc[n] = "idle" /\ allocs[n] < (IF Realloc THEN MaxCalls ELSE 1)
   /\ pc' = [pc EXCEPT ![n] = "claim"] /\ cand' = [cand EXCEPT ![n] = 1]
   /\ UNCHANGED <<layout, taken, fv, used, att, held, calls, mu, dup, tookTaken, nonAtomic, nodev>>
   /\ Log(n, "CallAlloc", 0, "")
 
-\* SetNXRuntime on the key of slot cand[n]
+\* SetNXRuntime on the key of slot cand[n]; success starts the heartbeat goroutine, which returns at
+\* once if this allocator's stopCh is already closed (allocation after Release on the same object)
 Claimok(n) ==
   /\ Mode = "node" /\ pc[n] = "claim"
   /\ UNCHANGED <<layout, taken, fv, used, att, held, calls, mu, dup, tookTaken, nonAtomic, ticks, expLive, wrongTier>>
   /\ LET s == cand[n] IN
      IF ~sh[s]
-     THEN /\ sh' = [sh EXCEPT ![s] = TRUE] /\ age' = [age EXCEPT ![s] = 0]
+     THEN /\ sh' = [sh EXCEPT ![s] = TRUE] /\ age' = [age EXCEPT ![s] = 0] /\ ttl' = [ttl EXCEPT ![s] = TTLTicks]
           /\ hold' = [hold EXCEPT ![n] = s] /\ renewed' = [renewed EXCEPT ![n] = TRUE]
           /\ ndup' = (ndup \/ \E m \in Procs \ {n} : Live(m) /\ hold[m] = s)
           /\ nforeign' = (nforeign \/ s \in taken)
+          /\ LET dead == stopc[n] = "closed" /\ StopChan = "once" IN
+               /\ hb' = [hb EXCEPT ![n] = IF dead THEN "stopped" ELSE "run"]
+               /\ hbLost' = (hbLost \/ dead)                                           \* deviation (Realloc on the code as it is)
+          /\ stopc' = IF StopChan = "fresh" THEN [stopc EXCEPT ![n] = "open"] ELSE stopc
+          /\ cf' = [cf EXCEPT ![n] = 0] /\ rf' = [rf EXCEPT ![n] = 0] /\ allocs' = [allocs EXCEPT ![n] = allocs[n] + 1]
           /\ pc' = [pc EXCEPT ![n] = "held"] /\ UNCHANGED cand
           /\ Log(n, "Claim", s, "ok")
      ELSE IF s < NSlots
      THEN /\ cand' = [cand EXCEPT ![n] = s + 1]
-          /\ UNCHANGED <<sh, age, hold, renewed, ndup, nforeign, pc>> /\ Log(n, "Claim", s, "retry")
+          /\ UNCHANGED <<sh, age, hold, renewed, ndup, nforeign, pc, hbv>> /\ Log(n, "Claim", s, "retry")
      ELSE /\ pc' = [pc EXCEPT ![n] = "failed"]                         \* every further slot is occupied too
-          /\ UNCHANGED <<sh, age, hold, renewed, ndup, nforeign, cand>> /\ Log(n, "Claim", s, "err")
+          /\ UNCHANGED <<sh, age, hold, renewed, ndup, nforeign, cand, hbv>> /\ Log(n, "Claim", s, "err")
 
 \* SetNXRuntime returns an error: the allocator logs it and goes on with the next slot
 Claimfault(n) ==
@@ -304,64 +353,83 @@ NRelNoop(n) ==
   /\ UNCHANGED <<layout, taken, fv, genv, nodev>>
   /\ Log(n, "CallRel", 0, "noop")
 
-\* heartbeat of a live node, once per period
+\* heartbeat of a live node, once per period: Set(key, nodeID, 90 s) succeeds
 Renew(n) ==
-  /\ Mode = "node" /\ MaxTicks > 0 /\ Live(n) /\ ~renewed[n]
-  /\ renewed' = [renewed EXCEPT ![n] = TRUE]
-  /\ IF RenewHitsClaim THEN sh' = [sh EXCEPT ![hold[n]] = TRUE] /\ age' = [age EXCEPT ![hold[n]] = 0]   \* plain Set: unconditional
-                       ELSE UNCHANGED <<sh, age>>                                                     \* written to the node-local cache
+  /\ Mode = "node" /\ MaxTicks > 0 /\ Live(n) /\ HbRuns(n) /\ ~renewed[n]
+  /\ renewed' = [renewed EXCEPT ![n] = TRUE] /\ cf' = [cf EXCEPT ![n] = 0]
+  /\ IF RenewHitsClaim THEN /\ sh' = [sh EXCEPT ![hold[n]] = TRUE] /\ age' = [age EXCEPT ![hold[n]] = 0]   \* plain Set: unconditional
+                             /\ ttl' = [ttl EXCEPT ![hold[n]] = RenewTTLTicks]
+                       ELSE UNCHANGED <<sh, age, ttl>>                                                \* written to the node-local cache
   /\ wrongTier' = (wrongTier \/ ~RenewHitsClaim)                                                      \* deviation
   \* calls[n] (node mode, with transient faults): successful renewals since the last failed one, capped
   /\ calls' = IF MaxRenewFails > 0 /\ att[n] > 0 /\ calls[n] < MaxCalls THEN [calls EXCEPT ![n] = calls[n] + 1] ELSE calls
-  /\ UNCHANGED <<layout, taken, fv, pc, used, cand, att, held, mu, dup, tookTaken, nonAtomic, hold, ticks, expLive, ndup, nforeign>>
+  /\ UNCHANGED <<layout, taken, fv, pc, used, cand, att, held, mu, dup, tookTaken, nonAtomic, hold, ticks, expLive, ndup, nforeign,
+                 hb, rf, stopc, allocs, hbLost>>
   /\ Log(n, "Renew", hold[n], IF RenewHitsClaim THEN "claim" ELSE "local")
 
-\* the heartbeat's Set fails with a transient store error; the previous renewal had succeeded
+\* the heartbeat's Set fails with a transient store error: nothing is written, the loop goes on
+\* (deviation HbGiveUp: or returns)
 RenewFail(n) ==
-  /\ Mode = "node" /\ MaxTicks > 0 /\ Live(n) /\ ~renewed[n] /\ RenewHitsClaim
-  /\ att[n] < MaxRenewFails /\ age[hold[n]] <= 1
+  /\ Mode = "node" /\ MaxTicks > 0 /\ Live(n) /\ HbRuns(n) /\ ~renewed[n] /\ RenewHitsClaim
+  /\ att[n] < MaxRenewFails /\ cf[n] < MaxConsecFails
   /\ renewed' = [renewed EXCEPT ![n] = TRUE] /\ att' = [att EXCEPT ![n] = att[n] + 1]
+  /\ cf' = [cf EXCEPT ![n] = cf[n] + 1]
+  /\ rf' = IF HbGiveUp = "lifetime" THEN [rf EXCEPT ![n] = rf[n] + 1] ELSE rf     \* (only that deviation reads it)
+  /\ LET quit == GivesUp(rf[n] + 1, cf[n] + 1) IN
+       /\ hb' = IF quit THEN [hb EXCEPT ![n] = "stopped"] ELSE hb
+       /\ hbLost' = (hbLost \/ quit)                                           \* deviation
   /\ calls' = [calls EXCEPT ![n] = 0]
   /\ UNCHANGED <<layout, taken, fv, pc, used, cand, held, mu, dup, tookTaken, nonAtomic,
-                 sh, age, hold, ticks, expLive, wrongTier, ndup, nforeign>>
+                 sh, age, hold, ticks, expLive, wrongTier, ndup, nforeign, ttl, stopc, allocs>>
   /\ Log(n, "Renew", hold[n], "fail")
 
 Tick ==
   /\ Mode = "node" /\ ticks < MaxTicks
   /\ \E s \in Slots : sh[s] /\ s \notin taken   \* periods are counted only while a claim of a modelled node exists
                                                \* (keeps "ticks" meaningful: k ticks under a live holder = k renewals)
-  /\ \A n \in Procs : Live(n) => renewed[n]
+  /\ \A n \in Procs : (Live(n) /\ HbRuns(n)) => renewed[n]      \* every running heartbeat has fired in this period
   /\ \A n \in Procs : pc[n] # "rel"          \* a Release call lasts less than a period (see note below)
-  /\ \A s \in Slots : (sh[s] /\ s \notin taken) => age[s] < TTLTicks     \* a due expiry happens before more time passes
+  /\ \A s \in Slots : (sh[s] /\ s \notin taken) => age[s] < ttl[s]       \* a due expiry happens before more time passes
   /\ age' = [s \in Slots |-> IF sh[s] /\ s \notin taken THEN age[s] + 1 ELSE age[s]]   \* foreign holders keep their claims fresh
   /\ renewed' = [n \in Procs |-> FALSE] /\ ticks' = ticks + 1
-  /\ UNCHANGED <<layout, taken, fv, pc, genv, sh, hold, expLive, wrongTier, ndup, nforeign>>
+  /\ UNCHANGED <<layout, taken, fv, pc, genv, sh, hold, expLive, wrongTier, ndup, nforeign, hbv>>
   /\ Log("time", "Tick", 0, "")
 
 SlotExpire(s) ==
-  /\ Mode = "node" /\ sh[s] /\ s \notin taken /\ age[s] = TTLTicks
+  /\ Mode = "node" /\ sh[s] /\ s \notin taken /\ age[s] = ttl[s]
   /\ sh' = [sh EXCEPT ![s] = FALSE] /\ age' = [age EXCEPT ![s] = 0]
   /\ expLive' = (expLive \/ \E n \in Procs : Live(n) /\ hold[n] = s)    \* deviation
-  /\ UNCHANGED <<layout, taken, fv, pc, genv, hold, renewed, ticks, wrongTier, ndup, nforeign>>
+  /\ UNCHANGED <<layout, taken, fv, pc, genv, hold, renewed, ticks, wrongTier, ndup, nforeign, hbv>>
   /\ Log("time", "Expire", s, IF \E n \in Procs : Live(n) /\ hold[n] = s THEN "live" ELSE "dead")
 
 NCallRel(n) ==
   /\ Mode = "node" /\ Live(n)
-  /\ pc' = [pc EXCEPT ![n] = "rel"]                                     \* close(stopCh): no more heartbeats
-  /\ UNCHANGED <<layout, taken, fv, genv, nodev>>
-  /\ Log(n, "CallRel", hold[n], "")
+  /\ UNCHANGED <<layout, taken, fv, genv, sh, age, hold, renewed, ticks, expLive, wrongTier, ndup, nforeign, cf, rf, ttl, allocs, hbLost>>
+  /\ IF stopc[n] = "closed"
+     \* (only with Realloc on the code as it is) close of a closed channel: Release panics, nothing is deleted
+     THEN /\ pc' = [pc EXCEPT ![n] = "relfailed"] /\ hb' = [hb EXCEPT ![n] = "off"] /\ UNCHANGED stopc
+          /\ Log(n, "CallRel", hold[n], "panic")
+     ELSE /\ pc' = [pc EXCEPT ![n] = "rel"]                                     \* close(stopCh): no more heartbeats
+          /\ hb' = [hb EXCEPT ![n] = "off"] /\ stopc' = [stopc EXCEPT ![n] = "closed"]
+          /\ Log(n, "CallRel", hold[n], "")
 
 NDel(n) ==
   /\ Mode = "node" /\ pc[n] = "rel"
-  /\ sh' = [sh EXCEPT ![hold[n]] = FALSE] /\ age' = [age EXCEPT ![hold[n]] = 0]   \* Delete: unconditional
-  /\ hold' = [hold EXCEPT ![n] = 0] /\ pc' = [pc EXCEPT ![n] = "gone"]
-  /\ UNCHANGED <<layout, taken, fv, genv, renewed, ticks, expLive, wrongTier, ndup, nforeign>>
-  /\ Log(n, "Del", 0, "")
+  /\ UNCHANGED <<layout, taken, genv, renewed, ticks, expLive, wrongTier, ndup, nforeign, hbv>>
+  /\ \/ /\ sh' = [sh EXCEPT ![hold[n]] = FALSE] /\ age' = [age EXCEPT ![hold[n]] = 0]   \* Delete: unconditional
+        /\ hold' = [hold EXCEPT ![n] = 0]
+        /\ pc' = [pc EXCEPT ![n] = IF Realloc /\ allocs[n] < MaxCalls THEN "idle" ELSE "gone"]   \* nodeID = "": may allocate again
+        /\ UNCHANGED fv /\ Log(n, "Del", 0, "")
+     \* Delete returns an error: Release returns it; the key stays (to its TTL: the heartbeat has stopped),
+     \* the allocator keeps its id (a second Release would close stopCh twice - not modelled)
+     \/ /\ CanFail("Delete") /\ Spend
+        /\ pc' = [pc EXCEPT ![n] = "relfailed"] /\ UNCHANGED <<sh, age, hold>>
+        /\ Log(n, "Del", 0, "fault")
 
 Crash(n) ==
   /\ Mode = "node" /\ MaxTicks > 0 /\ Live(n)
-  /\ pc' = [pc EXCEPT ![n] = "dead"]
-  /\ UNCHANGED <<layout, taken, fv, genv, nodev>>
+  /\ pc' = [pc EXCEPT ![n] = "dead"] /\ hb' = [hb EXCEPT ![n] = "off"]
+  /\ UNCHANGED <<layout, taken, fv, genv, sh, age, hold, renewed, ticks, expLive, wrongTier, ndup, nforeign, cf, rf, ttl, stopc, allocs, hbLost>>
   /\ Log(n, "Crash", hold[n], "")
 
 Next == \/ \E p \in Procs : \/ \E c \in Cands : CallGen(p, c)
@@ -380,6 +448,9 @@ TypeOK == /\ used \subseteq Cands /\ taken \subseteq (Cands \cup Slots)
           /\ \A i \in MuDom : mu[i] \in Procs \cup {"none"}
           /\ \A i \in MuDom : mu[i] = "none" => Waiters(i) = {}          \* a free mutex has no waiters
           /\ farm \in {"idle", "failing", "spent"} /\ fk \in Faults \cup {"none"} /\ hasnx \in BOOLEAN
+          /\ \A p \in Procs : /\ hb[p] \in {"off", "run", "stopped"} /\ stopc[p] \in {"open", "closed"}
+                              /\ cf[p] \in 0..MaxConsecFails /\ rf[p] \in 0..MaxRenewFails /\ allocs[p] \in 0..MaxCalls
+          /\ \A s \in Slots : ttl[s] \in {TTLTicks, RenewTTLTicks}
 \* (1) no two un-released successful generations are equal
 Unique       == ~dup
 HeldDisjoint == \A p, q \in Procs : p # q => held[p] \cap held[q] = {}
@@ -404,5 +475,12 @@ NodeUnique == /\ ~ndup
 NoForeign  == ~nforeign
 ClaimNeverExpiresUnderLiveHolder == ~expLive
 NoWrongTier == ~wrongTier
+\* the lease life cycle: as long as a node is live (allocated, not released, not crashed) its heartbeat
+\* goroutine is in its loop, and - the store faults being transient - its claim key is present with time left
+HeartbeatRunsWhileLive == ~hbLost /\ \A n \in Procs : Live(n) => HbRuns(n)
+LeaseMargin == (RenewHitsClaim /\ MaxConsecFails <= TTLTicks - 2) =>
+                 \A n \in Procs : Live(n) => sh[hold[n]] /\ age[hold[n]] < ttl[hold[n]]
+\* a heartbeat runs only for a live node (it ends with Release and Crash)
+NoHeartbeatWithoutHolder == \A n \in Procs : hb[n] = "run" => Live(n)
 NodeOnlyDeviation == NodeUnique \/ wrongTier
 =============================================================================
